@@ -17,6 +17,26 @@ type SubscriptionService struct {
 	// pub sub stuff
 	Mu   sync.Mutex
 	Subs map[uint32]*Subscription
+
+	// lastID is the most recently assigned subscription id.
+	lastID uint32
+}
+
+// nextID returns a subscription id that is not in use. The caller must hold s.Mu.
+//
+// Ids are handed out in increasing order instead of being derived from the
+// number of subscriptions, so that the id of a deleted subscription is not
+// given to a new one while higher ids are still alive.
+func (s *SubscriptionService) nextID() uint32 {
+	for {
+		s.lastID++
+		if s.lastID == 0 {
+			continue // 0 is not a valid subscription id
+		}
+		if _, used := s.Subs[s.lastID]; !used {
+			return s.lastID
+		}
+	}
 }
 
 // get rid of all references to a subscription and all monitored items that are pointed at this subscription.
@@ -55,7 +75,7 @@ func (s *SubscriptionService) CreateSubscription(sc *uasc.SecureChannel, r ua.Re
 	s.Mu.Lock()
 	defer s.Mu.Unlock()
 
-	newsubid := uint32(len(s.Subs)) + 1
+	newsubid := s.nextID()
 
 	if s.srv.cfg.logger != nil {
 		s.srv.cfg.logger.Info("New Sub %d for %v", newsubid, sc.RemoteAddr())
